@@ -185,6 +185,8 @@ def grammar(which):
     if which == "ident_prefixed":
         path = z3.Concat(z3.Star(z3.Concat(name, z3.Re("/"))), z3.Option(name))
         return z3.Concat(z3.Re("//"), path, z3.Re(":"), name)
+    if which == "digits":
+        return z3.Plus(z3.Range("0", "9"))
     if which == "posint":
         return z3.Concat(z3.Range("1", "9"), z3.Star(z3.Range("0", "9")))
     if which == "exp_dir":
